@@ -671,6 +671,21 @@ func runParent(prop, tier string) int {
 			if ee, ok := err.(*exec.ExitError); ok && ee.ExitCode() != exitOK && ee.ExitCode() != exitViol || strings.Contains(outs, "fatal error") || strings.Contains(outs, "DATA RACE") {
 				confirmed = true
 			}
+			// the fresh process runs with more address space than a worker: what killed the worker (an allocation of
+			// gigabytes, say) may go through there and be judged by the executor instead - a violation all the same,
+			// reported under the signature the replay shows
+			if !confirmed && strings.Contains(s, ".process-death|") {
+				if i := strings.Index(outs, "REPLAY-SIGNATURE "); i >= 0 {
+					rs := outs[i+len("REPLAY-SIGNATURE "):]
+					if j := strings.IndexByte(rs, '\n'); j >= 0 {
+						rs = rs[:j]
+					}
+					if strings.HasPrefix(rs, prop+".") {
+						fmt.Printf("process death of a worker replays as %s\n", rs)
+						confirmed, s = true, rs
+					}
+				}
+			}
 		} else if strings.Contains(s, ".hang|") {
 			confirmed = confirmHang(v.bin, v.replay)
 		} else {
